@@ -120,6 +120,30 @@ def pool_case(p):
     return bad, rec["beta"] > beta_prev, nlim
 
 
+def big_pool_case(seed, vol):
+    """A persistent pool of more than 2**17 samples (9 iterations of 16384 particles) with a handful of sharply peaked samples at
+    odd positions: every shortcut that looks at part of the pool while searching sees another ESS than the whole pool has."""
+    rng = np.random.default_rng(seed)
+    T, N = 9, 16384
+    betas = np.concatenate([[0.0, 0.0], np.sort(rng.uniform(0.02, 0.3, T - 2))])
+    us, logl = [], []
+    for t in range(T):
+        u = rng.random((N, 2)) if betas[t] == 0 else np.clip(0.5 + 0.25 * rng.standard_normal((N, 2)), 0, 1)
+        l = -8.0 * np.sum((u - 0.5) ** 2, axis=1)
+        us.append(u)
+        logl.append(l)
+    for k in range(3):          # three samples with a much higher likelihood, at odd flat positions
+        t_ = int(rng.integers(2, T))
+        j_ = 2 * int(rng.integers(0, N // 2)) + 1
+        logl[t_][j_] = 40.0 + 5.0 * k
+    logz = np.zeros(T)
+    for t in range(1, T):
+        logz[t] = float(mis_ref(logl[:t], betas[:t], logz[:t], betas[t])[2])
+    p = dict(T=T, N=N, ns=[N] * T, us=us, logl=logl, betas=betas, logz=logz, ess_ratio=2.0, vol=vol, kind="big-pool", scale=8.0)
+    bad, adv, nlim = pool_case(p)
+    return bad, adv, nlim, dict(T=T, N=N, vol=vol, pool=T * N)
+
+
 def sequence_case(seed):
     """Several consecutive iterations through ONE Reweighter instance on a growing synthetic history (state that
     the reweighter carries from iteration to iteration is part of what is judged).  Directed variant: a batch that
@@ -340,6 +364,16 @@ def run():
             ck.event("_find_beta_upper_limit observed", nlim)
             for key, what in bad:
                 ck.violation(key, what, dict(stream=["pool", idx], case=desc))
+    bt = [("tvf.checks.c05:big_pool_case", dict(seed=ck.subseed("bigpool", j), vol=[None, 0.5, None, 2.0][j % 4]), None) for j in range(ck.pick(2, 8))]
+    for i, st, val in farm.run(bt, timeout=1800, progress="C05-bigpool"):
+        if st != "ok":
+            ck.inconc(f"big pool {bt[i][1]}: {st} {str(val)[:300]}")
+            continue
+        bad, adv, nlim, desc = val
+        ck.case(dict(big_pool=desc, seed=bt[i][1]["seed"]), nontrivial=adv)
+        ck.event("pools of more than 2**17 samples through Reweighter.run")
+        for key, what in bad:
+            ck.violation(key, what, dict(big_pool=bt[i][1]))
     nseq = ck.pick(600, 20000)
     seeds = [ck.subseed("seq", i) for i in range(nseq)]
     stasks = [("tvf.checks.c05:_seq_batch", dict(seeds=seeds[i:i + 50]), None) for i in range(0, nseq, 50)]
